@@ -83,6 +83,8 @@ class ArithOptimal(Contract):
     exception is a negative difference of two unsigned operands, which is the exact difference quantized
     into the unsigned result format.  Operands are unchanged and share no state with the result."""
     name = 'functions:add/sub/mul[optimal]'
+    primary = ['C07']
+    secondary_stride = 6
     layer = 5
     uses = LOWER
     props = {'format': ['C07', 'C02'], 'exact': ['C07', 'C19'], 'no_flags': ['C07'], 'unsigned_negative': ['C07'],
@@ -187,6 +189,8 @@ class ArithImposed(Contract):
     modes of the configuration the result carries (first operand's, or out's / out_like's), flags set
     accordingly; raw and repr methods obey the same clause (hence agree)."""
     name = 'functions:add/sub/mul[imposed]'
+    primary = ['C08']
+    secondary_stride = 6
     layer = 5
     uses = LOWER
     allowed_exceptions = ('ValueError',)
